@@ -1,14 +1,23 @@
 """
 C13 -- Static analysis facts hold on every execution.
 
-Space: every program of six bounded grammars (mc.engine.progen_c13: J joins, P loop-carried constants, T tuple rows,
-V value-class ladders, L list/alias routes, Z sizes) x the complete product of
+Space: every program of seven bounded grammars (mc.engine.progen_c13: J joins, P loop-carried constants, T tuple rows,
+V value-class ladders, L list/alias routes, Z sizes, S shadowing comprehension targets) x the complete product of
 small per-family argument pools chosen to steer every branch outcome, trip
 count and value class.  Each accepted program is analysed once with the real
 analyses (DefineUse, TypeInfer, PartialEval, ArraySizeInfer, ValueClassInfer,
 Alias) and every execution is traced with mc.engine.tracer (a BytecodeCompiler
 subclass); the facts are then compared with what actually happened, at every
 traced event.
+
+Family S (144 programs, both tiers): a comprehension target shadows a name already in scope -- a real
+parameter, an earlier real or bool local, a list parameter (also iterated by the very comprehension that
+shadows it) -- over an iterable whose elements have the same or a different type than the shadowed name
+(plain and destructuring `zip` targets; element reading / not reading the target), and the shadowed name is
+read again AFTER the comprehension in the same statement (sibling operand, later tuple element, element of
+a second comprehension, both if-expression arms, `while` condition and loop body, `return` value) and in the
+next statement.  The comprehension's binding ends with the comprehension, so each of those reads must be
+reported as reached by the outer definition and carry the outer definition's type / class / constant.
 
 Oracle, per execution in which every operation has a result (a raising
 execution is counted and not judged -- the analyses' stated assumption):
@@ -592,7 +601,7 @@ def _def_text(f: Facts, d) -> str:
 
 class Check(BaseCheck):
     pid = 'C13'
-    rule = ('all programs of grammars J (joins), P (loop-carried constants), V (value-class ladders and chains), T (lists of tuples holding lists), L (list/alias routes), Z (sizes) up to the '
+    rule = ('all programs of grammars J (joins), P (loop-carried constants), V (value-class ladders and chains), T (lists of tuples holding lists), L (list/alias routes), Z (sizes), S (comprehension targets shadowing a visible name that is read again later in the same statement) up to the '
             'tier size x the full product of the per-family argument pools; every returning execution is traced and '
             'every expression/definition event compared with TypeInfer, ArraySizeInfer, ValueClassInfer, PartialEval, '
             'DefineUse and Alias facts. nontrivial = (program, input) whose execution returns and in which at least '
